@@ -278,9 +278,7 @@ def flatten_boolop(e, op):
 
 def rename(node, mapping: dict[str, str]):
     """Copy of node with Name ids / attribute names renamed by mapping (simultaneous)."""
-    import copy
-
-    n2 = copy.deepcopy(node)
+    n2 = clone(node)
     for x in ast.walk(n2):
         if isinstance(x, ast.Name) and x.id in mapping:
             x.id = mapping[x.id]
@@ -308,3 +306,19 @@ def value_cases(node, value=None):
             out.append((cs, e))
     rec(v, set(base))
     return out
+
+
+def clone(node):
+    """Deep copy of an AST following only syntactic fields (never the `_p` parent links, which would drag the whole module along)."""
+    if isinstance(node, list):
+        return [clone(x) for x in node]
+    if not isinstance(node, ast.AST):
+        return node
+    new = type(node)()
+    for f in node._fields:
+        if hasattr(node, f):
+            setattr(new, f, clone(getattr(node, f)))
+    for a in ("lineno", "col_offset", "end_lineno", "end_col_offset", "_srcline"):
+        if hasattr(node, a):
+            setattr(new, a, getattr(node, a))
+    return new
